@@ -58,6 +58,9 @@ package parser
 //@   ensures [span] result.Pos.Offset == old(l.pos) && result.End.Offset == l.pos && result.Type == TokenText
 //@   ensures [posvalid] result.Pos.Line >= 1 && result.Pos.Column >= 1 && result.Pos.Line <= len(l.input) + 1 && result.Pos.Column <= len(l.input) + 1
 //@   ensures [C08:colgrow] ColGrow(l) && l.line == old(l.line)
+//@   ensures [C17:tokcol] result.Pos.Column == old(l.column)
+//@   ensures [C17:notcomment] result.Type != TokenComment
+//@   ensures [C17:tok_before_lexer] result.Pos.Line < l.line || result.Pos.Column <= l.column
 //@   ensures [C08:tokline] result.Pos.Line == old(l.line) && l.line >= old(l.line)
 //@   ensures [C08:endvalid] result.End.Line >= 1 && result.End.Column >= 1 && result.End.Line <= len(l.input) + 1 && result.End.Column <= len(l.input) + 1
 //@   ensures [stop] l.pos == len(l.input) || l.input[l.pos] == '\n' || l.input[l.pos] == ';' || l.input[l.pos] == '|'
@@ -81,6 +84,9 @@ package parser
 //@   ensures [C02:number_takes_its_marks] l.pos == len(l.input) || (l.input[l.pos] != '.' && l.input[l.pos] != ',' && (l.input[l.pos] < '0' || l.input[l.pos] > '9'))
 //@   ensures [posvalid] result.Pos.Line >= 1 && result.Pos.Column >= 1 && result.Pos.Line <= len(l.input) + 1 && result.Pos.Column <= len(l.input) + 1
 //@   ensures [C08:colgrow] ColGrow(l) && l.line == old(l.line)
+//@   ensures [C17:tokcol] result.Pos.Column == old(l.column)
+//@   ensures [C17:notcomment] result.Type != TokenComment
+//@   ensures [C17:tok_before_lexer] result.Pos.Line < l.line || result.Pos.Column <= l.column
 //@   ensures [C08:tokline] result.Pos.Line == old(l.line) && l.line >= old(l.line)
 //@   ensures [C08:endvalid] result.End.Line >= 1 && result.End.Column >= 1 && result.End.Line <= len(l.input) + 1 && result.End.Column <= len(l.input) + 1
 //@   modifies l.pos, l.column
@@ -101,6 +107,9 @@ package parser
 //@   ensures [step] l.pos == old(l.pos) + 1 && l.line == old(l.line) + 1 && l.column == 1 && l.atStart
 //@   ensures [span] result.Pos.Offset == old(l.pos) && result.End.Offset == l.pos && result.Type == TokenNewline
 //@   ensures [posvalid] result.Pos.Line >= 1 && result.Pos.Column >= 1 && result.Pos.Line <= len(l.input) + 1 && result.Pos.Column <= len(l.input) + 1
+//@   ensures [C17:tokcol] result.Pos.Column == old(l.column)
+//@   ensures [C17:notcomment] result.Type != TokenComment
+//@   ensures [C17:tok_before_lexer] result.Pos.Line < l.line || result.Pos.Column <= l.column
 //@   ensures [C08:tokline] result.Pos.Line == old(l.line) && l.line >= old(l.line)
 //@   ensures [C08:endvalid] result.End.Line >= 1 && result.End.Column >= 1 && result.End.Line <= len(l.input) + 1 && result.End.Column <= len(l.input) + 1
 //@   modifies l.pos, l.column, l.line, l.atStart
@@ -118,6 +127,9 @@ package parser
 //@   ensures [span] result.Pos.Offset == old(l.pos) && result.End.Offset == l.pos && result.Type == TokenComment
 //@   ensures [posvalid] result.Pos.Line >= 1 && result.Pos.Column >= 1 && result.Pos.Line <= len(l.input) + 1 && result.Pos.Column <= len(l.input) + 1
 //@   ensures [C08:colgrow] ColGrow(l) && l.line == old(l.line)
+//@   ensures [C17:tokcol] result.Pos.Column == old(l.column)
+//@   ensures [C17:comment_to_eol] l.pos == len(l.input) || l.input[l.pos] == '\n'
+//@   ensures [C17:tok_before_lexer] result.Pos.Line < l.line || result.Pos.Column <= l.column
 //@   ensures [C08:tokline] result.Pos.Line == old(l.line) && l.line >= old(l.line)
 //@   ensures [C08:endvalid] result.End.Line >= 1 && result.End.Column >= 1 && result.End.Line <= len(l.input) + 1 && result.End.Column <= len(l.input) + 1
 //@   ensures [stop] l.pos == len(l.input) || l.input[l.pos] == '\n'
@@ -142,6 +154,9 @@ package parser
 //@   ensures [span] result.Pos.Offset == old(l.pos) && old(l.pos) < result.End.Offset && result.End.Offset <= l.pos && result.Type == TokenAccount
 //@   ensures [posvalid] result.Pos.Line >= 1 && result.Pos.Column >= 1 && result.Pos.Line <= len(l.input) + 1 && result.Pos.Column <= len(l.input) + 1
 //@   ensures [C08:colgrow] ColGrow(l) && l.line == old(l.line)
+//@   ensures [C17:tokcol] result.Pos.Column == old(l.column)
+//@   ensures [C17:notcomment] result.Type != TokenComment
+//@   ensures [C17:tok_before_lexer] result.Pos.Line < l.line || result.Pos.Column <= l.column
 //@   ensures [C08:tokline] result.Pos.Line == old(l.line) && l.line >= old(l.line)
 //@   ensures [C08:endvalid] result.End.Line >= 1 && result.End.Column >= 1 && result.End.Line <= len(l.input) + 1 && result.End.Column <= len(l.input) + 1
 //@   ensures [C08,C09:lexeme_exact] result.End.Offset == old(l.pos) + len(result.Value)
@@ -165,6 +180,10 @@ package parser
 //@   ensures [progress] old(l.pos) < len(l.input) ==> l.pos > old(l.pos)
 //@   ensures [span] old(l.pos) <= result.Pos.Offset && result.Pos.Offset <= result.End.Offset && result.End.Offset <= l.pos
 //@   ensures [posvalid] result.Pos.Line >= 1 && result.Pos.Column >= 1 && result.Pos.Line <= len(l.input) + 1 && result.Pos.Column <= len(l.input) + 1
+//@   ensures [C17:tokcol] result.Pos.Column >= old(l.column)
+//@   ensures [C17:comment_to_eol] result.Type == TokenComment ==> l.pos == len(l.input) || l.input[l.pos] == '\n'
+//@   ensures [C17:eol_token] old(l.pos) < len(l.input) && l.input[old(l.pos)] == '\n' ==> result.Type == TokenNewline && l.line == old(l.line) + 1
+//@   ensures [C17:tok_before_lexer] result.Pos.Line < l.line || result.Pos.Column <= l.column
 //@   ensures [C08:tokline] result.Pos.Line == old(l.line) && l.line >= old(l.line)
 //@   ensures [C08:endvalid] result.End.Line >= 1 && result.End.Column >= 1 && result.End.Line <= len(l.input) + 1 && result.End.Column <= len(l.input) + 1
 //@   ensures [eof] result.Type == TokenEOF ==> l.pos == len(l.input)
@@ -247,6 +266,9 @@ package parser
 //@   ensures [progress] l.pos > old(l.pos)
 //@   ensures [span] result.Pos.Offset == old(l.pos) && result.End.Offset == l.pos && result.Type == TokenDate
 //@   ensures [posvalid] result.Pos.Line >= 1 && result.Pos.Column >= 1 && result.Pos.Line <= len(l.input) + 1 && result.Pos.Column <= len(l.input) + 1
+//@   ensures [C17:tokcol] result.Pos.Column == old(l.column)
+//@   ensures [C17:notcomment] result.Type != TokenComment
+//@   ensures [C17:tok_before_lexer] result.Pos.Line < l.line || result.Pos.Column <= l.column
 //@   ensures [C08:tokline] result.Pos.Line == old(l.line) && l.line >= old(l.line)
 //@   ensures [C08:endvalid] result.End.Line >= 1 && result.End.Column >= 1 && result.End.Line <= len(l.input) + 1 && result.End.Column <= len(l.input) + 1
 //@   ensures [frame] Frame3(l)
@@ -267,6 +289,9 @@ package parser
 //@   ensures [progress] l.pos > old(l.pos)
 //@   ensures [span] result.Pos.Offset == old(l.pos) && result.End.Offset == l.pos && result.Type == TokenStatus
 //@   ensures [posvalid] result.Pos.Line >= 1 && result.Pos.Column >= 1 && result.Pos.Line <= len(l.input) + 1 && result.Pos.Column <= len(l.input) + 1
+//@   ensures [C17:tokcol] result.Pos.Column == old(l.column)
+//@   ensures [C17:notcomment] result.Type != TokenComment
+//@   ensures [C17:tok_before_lexer] result.Pos.Line < l.line || result.Pos.Column <= l.column
 //@   ensures [C08:tokline] result.Pos.Line == old(l.line) && l.line >= old(l.line)
 //@   ensures [C08:endvalid] result.End.Line >= 1 && result.End.Column >= 1 && result.End.Line <= len(l.input) + 1 && result.End.Column <= len(l.input) + 1
 //@   ensures [frame] Frame3(l)
@@ -284,6 +309,9 @@ package parser
 //@   ensures [progress] l.pos > old(l.pos)
 //@   ensures [span] result.Pos.Offset == old(l.pos) && result.End.Offset == l.pos && result.Type == TokenCode
 //@   ensures [posvalid] result.Pos.Line >= 1 && result.Pos.Column >= 1 && result.Pos.Line <= len(l.input) + 1 && result.Pos.Column <= len(l.input) + 1
+//@   ensures [C17:tokcol] result.Pos.Column == old(l.column)
+//@   ensures [C17:notcomment] result.Type != TokenComment
+//@   ensures [C17:tok_before_lexer] result.Pos.Line < l.line || result.Pos.Column <= l.column
 //@   ensures [C08:tokline] result.Pos.Line == old(l.line) && l.line >= old(l.line)
 //@   ensures [C08:endvalid] result.End.Line >= 1 && result.End.Column >= 1 && result.End.Line <= len(l.input) + 1 && result.End.Column <= len(l.input) + 1
 //@   ensures [frame] Frame3(l)
@@ -303,6 +331,9 @@ package parser
 //@   ensures [progress] l.pos > old(l.pos)
 //@   ensures [span] result.Pos.Offset == old(l.pos) && result.End.Offset == l.pos && result.Type == TokenIndent
 //@   ensures [posvalid] result.Pos.Line >= 1 && result.Pos.Column >= 1 && result.Pos.Line <= len(l.input) + 1 && result.Pos.Column <= len(l.input) + 1
+//@   ensures [C17:tokcol] result.Pos.Column == old(l.column)
+//@   ensures [C17:notcomment] result.Type != TokenComment
+//@   ensures [C17:tok_before_lexer] result.Pos.Line < l.line || result.Pos.Column <= l.column
 //@   ensures [C08:tokline] result.Pos.Line == old(l.line) && l.line >= old(l.line)
 //@   ensures [C08:endvalid] result.End.Line >= 1 && result.End.Column >= 1 && result.End.Line <= len(l.input) + 1 && result.End.Column <= len(l.input) + 1
 //@   ensures [frame] Frame3(l)
@@ -324,6 +355,9 @@ package parser
 //@   ensures [progress] l.pos > old(l.pos)
 //@   ensures [span] result.Pos.Offset == old(l.pos) && result.End.Offset == l.pos && result.Type == TokenCommodity
 //@   ensures [posvalid] result.Pos.Line >= 1 && result.Pos.Column >= 1 && result.Pos.Line <= len(l.input) + 1 && result.Pos.Column <= len(l.input) + 1
+//@   ensures [C17:tokcol] result.Pos.Column == old(l.column)
+//@   ensures [C17:notcomment] result.Type != TokenComment
+//@   ensures [C17:tok_before_lexer] result.Pos.Line < l.line || result.Pos.Column <= l.column
 //@   ensures [C08:tokline] result.Pos.Line == old(l.line) && l.line >= old(l.line)
 //@   ensures [C08:endvalid] result.End.Line >= 1 && result.End.Column >= 1 && result.End.Line <= len(l.input) + 1 && result.End.Column <= len(l.input) + 1
 //@   ensures [frame] Frame3(l)
@@ -341,6 +375,9 @@ package parser
 //@   ensures [progress] l.pos > old(l.pos)
 //@   ensures [span] result.Pos.Offset == old(l.pos) && result.End.Offset == l.pos && result.Type == TokenCommodity
 //@   ensures [posvalid] result.Pos.Line >= 1 && result.Pos.Column >= 1 && result.Pos.Line <= len(l.input) + 1 && result.Pos.Column <= len(l.input) + 1
+//@   ensures [C17:tokcol] result.Pos.Column == old(l.column)
+//@   ensures [C17:notcomment] result.Type != TokenComment
+//@   ensures [C17:tok_before_lexer] result.Pos.Line < l.line || result.Pos.Column <= l.column
 //@   ensures [C08:tokline] result.Pos.Line == old(l.line) && l.line >= old(l.line)
 //@   ensures [C08:endvalid] result.End.Line >= 1 && result.End.Column >= 1 && result.End.Line <= len(l.input) + 1 && result.End.Column <= len(l.input) + 1
 //@   ensures [frame] Frame3(l)
@@ -360,6 +397,9 @@ package parser
 //@   ensures [progress] l.pos > old(l.pos)
 //@   ensures [span] result.Pos.Offset == old(l.pos) && result.End.Offset == l.pos && (result.Type == TokenAt || result.Type == TokenAtAt)
 //@   ensures [posvalid] result.Pos.Line >= 1 && result.Pos.Column >= 1 && result.Pos.Line <= len(l.input) + 1 && result.Pos.Column <= len(l.input) + 1
+//@   ensures [C17:tokcol] result.Pos.Column == old(l.column)
+//@   ensures [C17:notcomment] result.Type != TokenComment
+//@   ensures [C17:tok_before_lexer] result.Pos.Line < l.line || result.Pos.Column <= l.column
 //@   ensures [C08:tokline] result.Pos.Line == old(l.line) && l.line >= old(l.line)
 //@   ensures [C08:endvalid] result.End.Line >= 1 && result.End.Column >= 1 && result.End.Line <= len(l.input) + 1 && result.End.Column <= len(l.input) + 1
 //@   ensures [frame] Frame3(l)
@@ -377,6 +417,9 @@ package parser
 //@   ensures [progress] l.pos > old(l.pos)
 //@   ensures [span] result.Pos.Offset == old(l.pos) && result.End.Offset == l.pos && (result.Type == TokenEquals || result.Type == TokenDoubleEquals)
 //@   ensures [posvalid] result.Pos.Line >= 1 && result.Pos.Column >= 1 && result.Pos.Line <= len(l.input) + 1 && result.Pos.Column <= len(l.input) + 1
+//@   ensures [C17:tokcol] result.Pos.Column == old(l.column)
+//@   ensures [C17:notcomment] result.Type != TokenComment
+//@   ensures [C17:tok_before_lexer] result.Pos.Line < l.line || result.Pos.Column <= l.column
 //@   ensures [C08:tokline] result.Pos.Line == old(l.line) && l.line >= old(l.line)
 //@   ensures [C08:endvalid] result.End.Line >= 1 && result.End.Column >= 1 && result.End.Line <= len(l.input) + 1 && result.End.Column <= len(l.input) + 1
 //@   ensures [frame] Frame3(l)
@@ -394,6 +437,9 @@ package parser
 //@   ensures [progress] l.pos > old(l.pos)
 //@   ensures [span] result.Pos.Offset == old(l.pos) && result.End.Offset == l.pos && result.Type == TokenSign
 //@   ensures [posvalid] result.Pos.Line >= 1 && result.Pos.Column >= 1 && result.Pos.Line <= len(l.input) + 1 && result.Pos.Column <= len(l.input) + 1
+//@   ensures [C17:tokcol] result.Pos.Column == old(l.column)
+//@   ensures [C17:notcomment] result.Type != TokenComment
+//@   ensures [C17:tok_before_lexer] result.Pos.Line < l.line || result.Pos.Column <= l.column
 //@   ensures [C08:tokline] result.Pos.Line == old(l.line) && l.line >= old(l.line)
 //@   ensures [C08:endvalid] result.End.Line >= 1 && result.End.Column >= 1 && result.End.Line <= len(l.input) + 1 && result.End.Column <= len(l.input) + 1
 //@   ensures [frame] Frame3(l)
@@ -411,6 +457,9 @@ package parser
 //@   ensures [progress] l.pos > old(l.pos)
 //@   ensures [span] result.Pos.Offset == old(l.pos) && old(l.pos) < result.End.Offset && result.End.Offset <= l.pos && result.Type != TokenEOF
 //@   ensures [posvalid] result.Pos.Line >= 1 && result.Pos.Column >= 1 && result.Pos.Line <= len(l.input) + 1 && result.Pos.Column <= len(l.input) + 1
+//@   ensures [C17:tokcol] result.Pos.Column == old(l.column)
+//@   ensures [C17:notcomment] result.Type != TokenComment
+//@   ensures [C17:tok_before_lexer] result.Pos.Line < l.line || result.Pos.Column <= l.column
 //@   ensures [C08:tokline] result.Pos.Line == old(l.line) && l.line >= old(l.line)
 //@   ensures [C08:endvalid] result.End.Line >= 1 && result.End.Column >= 1 && result.End.Line <= len(l.input) + 1 && result.End.Column <= len(l.input) + 1
 //@   ensures [frame] Frame3(l)
@@ -433,6 +482,9 @@ package parser
 //@   ensures [progress] l.pos > old(l.pos)
 //@   ensures [span] result.Pos.Offset == old(l.pos) && result.End.Offset == l.pos && result.Type != TokenEOF
 //@   ensures [posvalid] result.Pos.Line >= 1 && result.Pos.Column >= 1 && result.Pos.Line <= len(l.input) + 1 && result.Pos.Column <= len(l.input) + 1
+//@   ensures [C17:tokcol] result.Pos.Column == old(l.column)
+//@   ensures [C17:notcomment] result.Type != TokenComment
+//@   ensures [C17:tok_before_lexer] result.Pos.Line < l.line || result.Pos.Column <= l.column
 //@   ensures [C08:tokline] result.Pos.Line == old(l.line) && l.line >= old(l.line)
 //@   ensures [C08:endvalid] result.End.Line >= 1 && result.End.Column >= 1 && result.End.Line <= len(l.input) + 1 && result.End.Column <= len(l.input) + 1
 //@   ensures [frame] Frame3(l)
@@ -454,6 +506,10 @@ package parser
 //@   ensures [progress] l.pos > old(l.pos)
 //@   ensures [span] old(l.pos) <= result.Pos.Offset && result.Pos.Offset <= result.End.Offset && result.End.Offset <= l.pos
 //@   ensures [posvalid] result.Pos.Line >= 1 && result.Pos.Column >= 1 && result.Pos.Line <= len(l.input) + 1 && result.Pos.Column <= len(l.input) + 1
+//@   ensures [C17:tokcol] result.Pos.Column >= old(l.column)
+//@   ensures [C17:comment_to_eol] result.Type == TokenComment ==> l.pos == len(l.input) || l.input[l.pos] == '\n'
+//@   ensures [C17:eol_token] old(l.pos) < len(l.input) && l.input[old(l.pos)] == '\n' ==> result.Type == TokenNewline && l.line == old(l.line) + 1
+//@   ensures [C17:tok_before_lexer] result.Pos.Line < l.line || result.Pos.Column <= l.column
 //@   ensures [C08:tokline] result.Pos.Line == old(l.line) && l.line >= old(l.line)
 //@   ensures [C08:endvalid] result.End.Line >= 1 && result.End.Column >= 1 && result.End.Line <= len(l.input) + 1 && result.End.Column <= len(l.input) + 1
 //@   ensures [eof] result.Type == TokenEOF ==> l.pos == len(l.input)
@@ -472,6 +528,10 @@ package parser
 //@   ensures [atend] old(l.pos) >= len(l.input) ==> result.Type == TokenEOF && l.pos == old(l.pos)
 //@   ensures [span] old(l.pos) <= result.Pos.Offset && result.Pos.Offset <= result.End.Offset && result.End.Offset <= l.pos
 //@   ensures [posvalid] result.Pos.Line >= 1 && result.Pos.Column >= 1 && result.Pos.Line <= len(l.input) + 1 && result.Pos.Column <= len(l.input) + 1
+//@   ensures [C17:tokcol] result.Pos.Column >= old(l.column)
+//@   ensures [C17:comment_to_eol] result.Type == TokenComment ==> l.pos == len(l.input) || l.input[l.pos] == '\n'
+//@   ensures [C17:eol_token] old(l.pos) < len(l.input) && l.input[old(l.pos)] == '\n' ==> result.Type == TokenNewline && l.line == old(l.line) + 1
+//@   ensures [C17:tok_before_lexer] result.Pos.Line < l.line || result.Pos.Column <= l.column
 //@   ensures [C08:tokline] result.Pos.Line == old(l.line) && l.line >= old(l.line)
 //@   ensures [C08:endvalid] result.End.Line >= 1 && result.End.Column >= 1 && result.End.Line <= len(l.input) + 1 && result.End.Column <= len(l.input) + 1
 //@   ensures [eof] result.Type == TokenEOF ==> l.pos == len(l.input)
